@@ -278,3 +278,19 @@ Definition cstep (c : cfg) (w : cworld) (ce : cevent) : cworld :=
   | CCrash => mkC (reload (c_disk w) (log (c_mem w))) (c_disk w) false
   end.
 Definition crun (c : cfg) (w : cworld) (evs : list cevent) : cworld := fold_left (cstep c) evs w.
+
+(* the runner-model history of a store history: steps whose unlock completed (written at once, or written by a later retry), an
+   ERestart for every crash; a step whose write was still failing when the process died is dropped, and so are steps attempted
+   while the lock was held by a retrying unlock. [pending] is the step whose write is still failing. *)
+Fixpoint cflat (pending : option event) (evs : list cevent) : list event :=
+  match evs with
+  | [] => match pending with Some e => [e] | None => [] end
+  | CStep ERestart _ :: r => cflat pending r
+  | CStep e written :: r =>
+      match pending with
+      | Some _ => cflat pending r
+      | None => if written then e :: cflat None r else cflat (Some e) r
+      end
+  | CRetry :: r => match pending with Some e => e :: cflat None r | None => cflat None r end
+  | CCrash :: r => ERestart :: cflat None r
+  end.
